@@ -277,13 +277,13 @@ PROPS = {
         level="exploration",
         engine="simnet",
         technique="runtime monitoring with catch_unwind, a bound on mailbox reads / virtual time, and a non-interference (two-run canary) monitor for out-of-bounds reads, around every SDO / SDO-info entry point against a device whose mailbox is a byte script; debug and release builds; big-stack worker threads so that a stack overflow cannot pass as a verdict",
-        level_text=("Thousands of scripted replies per run: expedited/normal/segmented-initiate/segment/abort/emergency/SDO-info/download responses and random bytes, then field-mutated (mailbox length over its full range and at edges, type nibble, counter, CoE service, command bits, object, complete size, truncation at every length, random byte), read mailboxes of 6..1024 bytes, 1..3 replies cycled, optionally refilled forever, for sdo_read (u32 and [u8;64]), sdo_write, sdo_info_object_description_list and sdo_info_object_quantities. "
+        level_text=("Thousands of scripted replies per run: expedited/normal/segmented-initiate/segment/abort/emergency/SDO-info/download responses and random bytes, then field-mutated (mailbox length over its full range and at edges, type nibble, counter, CoE service, command bits, object, complete size, truncation at every length, random byte), read mailboxes of 6..1024 bytes, 1..3 replies cycled, plus a directed family in which a valid segmented-upload initiate response is followed by upload-segment responses with every kind of length / unused-bytes / toggle / last-flag value, optionally refilled forever, for sdo_read (u32 and [u8;64]), sdo_write, sdo_info_object_description_list and sdo_info_object_quantities. "
                     "Held = no panic, no abort, the call ends within 70000 mailbox reads, and the outcome does not depend on canary bytes placed in stale frame slot contents."),
         level_note="'Ends' is restated as: returns within 70000 mailbox reads (the protocol's fragment counter is 16 bit). Bytes of the mailbox buffer beyond the scripted message belong to the datagram ethercrab asked for and are kept identical in both canary runs.",
         rule="case = (entry point, mailbox size, scripted replies); distinct by scenario hash",
         assumptions=[],
         min_distinct=dict(quick=2000, thorough=200000),
-        required_counters=["entry.sdo_read_u32", "entry.sdo_write", "entry.sdo_info_list", "entry.sdo_info_quantities", "reply.mutated", "reply.emergency", "reply.segment", "device_refills_forever", "outcome.value", "outcome.error"],
+        required_counters=["entry.sdo_read_u32", "entry.sdo_write", "entry.sdo_info_list", "entry.sdo_info_quantities", "reply.mutated", "reply.emergency", "reply.segment", "reply.segmented-initiate-valid", "reply.segment-in-session", "device_refills_forever", "outcome.value", "outcome.error"],
         runs=[native("mbx-release", "c16", "release"), native("mbx-debug", "c16", "debug", args={"scale-pct": dict(quick=40, thorough=10)}),
               native("mbx-miri", "c16", "miri", args={"cases-total": dict(quick=16, thorough=32), "case-offset": 1000000}, shards=16, timeout=7200, tiers=('thorough',))],
     ),
